@@ -94,13 +94,16 @@ type c12Op struct {
 	Attrs *c12Attrs `json:"attrs"`
 	Now   int64     `json:"now"`
 	C     string    `json:"c"`
-	I     int       `json:"i"`
+	Srv   string    `json:"srv"`
 	B     bool      `json:"b"`
 }
 
 type c12Cfg struct {
 	Reg  [][2]string      `json:"reg"`
-	Neps map[string]int   `json:"neps"`
+	Servers []struct {
+		C string   `json:"c"`
+		S []string `json:"s"`
+	} `json:"servers"` // initial .spec.servers per cluster (pairwise disjoint)
 	STTL int64            `json:"sttl"`
 	FTTL int64            `json:"fttl"`
 	ATTL int64            `json:"attl"`
@@ -158,6 +161,9 @@ type c12Rig struct {
 	tidx    map[string]int
 	sidx    map[string]int
 	calls   []callObs
+	owner   map[string]string   // server -> cluster whose server list it is in ("" = none)
+	lists   map[string][]string // cluster -> current server list
+	dis     map[string]bool     // server -> Disabled flag in its cluster's object
 	gate    *c12Gate
 	via     string
 	now     int64
@@ -293,80 +299,143 @@ func (g *c12Gate) wait() {
 	}
 }
 
-// newCluster builds a real ClusterInfo with n endpoints whose clientsets are scripted fakes.
-func (r *c12Rig) newCluster(name string, n int) *clusters.ClusterInfo {
+func c12URL(srv string) string { return "https://" + srv + ".invalid:6443" }
+
+// specFor is the UpstreamCluster object of cluster name with its CURRENT server list.
+func (r *c12Rig) specFor(name string) *proxyv1alpha1.UpstreamCluster {
 	obj := &proxyv1alpha1.UpstreamCluster{
 		ObjectMeta: metav1.ObjectMeta{Name: name},
 		Spec: proxyv1alpha1.UpstreamClusterSpec{
 			ClientConfig: proxyv1alpha1.ClientConfig{Insecure: true, BearerToken: []byte("gw")},
 		},
 	}
-	for i := 0; i < n; i++ {
-		obj.Spec.Servers = append(obj.Spec.Servers, proxyv1alpha1.UpstreamClusterServer{
-			Endpoint: fmt.Sprintf("https://ep%d.%s.invalid:6443", i, name),
-		})
+	for _, srv := range r.lists[name] {
+		d := r.dis[srv]
+		obj.Spec.Servers = append(obj.Spec.Servers, proxyv1alpha1.UpstreamClusterServer{Endpoint: c12URL(srv), Disabled: &d})
 	}
-	info, err := clusters.CreateClusterInfo(obj, nil, "", nil)
+	return obj
+}
+
+// newCluster builds a real ClusterInfo for the cluster's current server list; the clientset of
+// every endpoint is the scripted fake of that server.
+func (r *c12Rig) newCluster(name string) *clusters.ClusterInfo {
+	for _, srv := range r.lists[name] {
+		r.dis[srv] = false
+	}
+	info, err := clusters.CreateClusterInfo(r.specFor(name), nil, "", nil)
 	must(err)
-	for i := 0; i < n; i++ {
-		ep, ok := info.Endpoints.Load(fmt.Sprintf("https://ep%d.%s.invalid:6443", i, name))
-		if !ok {
-			panic("endpoint missing")
-		}
-		cs := kubefake.NewSimpleClientset()
-		epc := ep
-		cs.PrependReactor("create", "tokenreviews", func(action k8stesting.Action) (bool, runtime.Object, error) {
-			host := c12ActionHost(action)
-			r.mu.Lock()
-			a := c12Answer{K: "fail"}
-			if k := r.tidx[name]; k < len(r.tscript[name]) {
-				a = r.tscript[name][k]
-			}
-			r.tidx[name]++
-			r.record(name, epc, host, a.K == "fail" && a.Retry)
-			g := r.takeGate(host, "T")
-			r.mu.Unlock()
-			g.wait() // the review is "in flight" until the harness releases it
-			switch a.K {
-			case "auth":
-				return true, &authenticationv1.TokenReview{Status: authenticationv1.TokenReviewStatus{
-					Authenticated: true, User: authenticationv1.UserInfo{Username: a.Name, UID: a.UID}}}, nil
-			case "unauth":
-				return true, &authenticationv1.TokenReview{}, nil
-			case "unauthmsg":
-				return true, &authenticationv1.TokenReview{Status: authenticationv1.TokenReviewStatus{
-					Error: "verif-err:" + strconv.FormatInt(a.Tag, 10)}}, nil
-			default:
-				return true, nil, c12Err(a.Tag, a.Retry)
-			}
-		})
-		cs.PrependReactor("create", "subjectaccessreviews", func(action k8stesting.Action) (bool, runtime.Object, error) {
-			host := c12ActionHost(action)
-			r.mu.Lock()
-			a := c12Answer{K: "fail"}
-			if k := r.sidx[name]; k < len(r.sscript[name]) {
-				a = r.sscript[name][k]
-			}
-			r.sidx[name]++
-			r.record(name, epc, host, a.K == "fail" && a.Retry)
-			g := r.takeGate(host, "S")
-			r.mu.Unlock()
-			g.wait()
-			if a.K == "status" {
-				return true, &authorizationv1.SubjectAccessReview{Status: authorizationv1.SubjectAccessReviewStatus{
-					Allowed: a.Allowed, Denied: a.Denied, Reason: a.Reason}}, nil
-			}
-			return true, nil, c12Err(a.Tag, a.Retry)
-		})
-		clusters.VerifSetClientset(ep, cs)
+	for _, srv := range r.lists[name] {
+		r.attachFake(info, srv)
 	}
 	return info
 }
 
+// attachFake gives the EndpointInfo of srv in info a fake clientset that plays the upstream
+// apiserver srv: it answers as the cluster that OWNS srv at the time of the review (the cluster in
+// whose server list srv currently is), from that cluster's script, and records the review with that
+// owner and with whether the EndpointInfo object that was used is the owner's current, ready
+// endpoint for srv.
+func (r *c12Rig) attachFake(info *clusters.ClusterInfo, srv string) {
+	ep, ok := info.Endpoints.Load(c12URL(srv))
+	if !ok {
+		panic("endpoint missing: " + srv)
+	}
+	cs := kubefake.NewSimpleClientset()
+	enter := func(action k8stesting.Action, kind string) (c12Answer, *c12Gate) {
+		host := c12ActionHost(action)
+		r.mu.Lock()
+		defer r.mu.Unlock()
+		owner := r.owner[srv]
+		current := false
+		if oi := r.infos[owner]; owner != "" && oi != nil {
+			if cur, ok := oi.Endpoints.Load(c12URL(srv)); ok && cur == ep {
+				current = ep.IsReady()
+			}
+		}
+		a := c12Answer{K: "fail"}
+		if kind == "T" {
+			if k := r.tidx[owner]; owner != "" && k < len(r.tscript[owner]) {
+				a = r.tscript[owner][k]
+			}
+			r.tidx[owner]++
+		} else {
+			if k := r.sidx[owner]; owner != "" && k < len(r.sscript[owner]) {
+				a = r.sscript[owner][k]
+			}
+			r.sidx[owner]++
+		}
+		r.calls = append(r.calls, callObs{C: owner, Ready: current, host: host, retry: a.K == "fail" && a.Retry})
+		return a, r.takeGate(host, kind)
+	}
+	cs.PrependReactor("create", "tokenreviews", func(action k8stesting.Action) (bool, runtime.Object, error) {
+		a, g := enter(action, "T")
+		g.wait() // the review is "in flight" until the harness releases it
+		switch a.K {
+		case "auth":
+			return true, &authenticationv1.TokenReview{Status: authenticationv1.TokenReviewStatus{
+				Authenticated: true, User: authenticationv1.UserInfo{Username: a.Name, UID: a.UID}}}, nil
+		case "unauth":
+			return true, &authenticationv1.TokenReview{}, nil
+		case "unauthmsg":
+			return true, &authenticationv1.TokenReview{Status: authenticationv1.TokenReviewStatus{
+				Error: "verif-err:" + strconv.FormatInt(a.Tag, 10)}}, nil
+		default:
+			return true, nil, c12Err(a.Tag, a.Retry)
+		}
+	})
+	cs.PrependReactor("create", "subjectaccessreviews", func(action k8stesting.Action) (bool, runtime.Object, error) {
+		a, g := enter(action, "S")
+		g.wait()
+		if a.K == "status" {
+			return true, &authorizationv1.SubjectAccessReview{Status: authorizationv1.SubjectAccessReviewStatus{
+				Allowed: a.Allowed, Denied: a.Denied, Reason: a.Reason}}, nil
+		}
+		return true, nil, c12Err(a.Tag, a.Retry)
+	})
+	clusters.VerifSetClientset(ep, cs)
+}
+
+// addEp / removeEp: the cluster's object gets a new .spec.servers and is synced (ClusterInfo.Sync).
+func (r *c12Rig) addEp(c, srv string) {
+	r.mu.Lock()
+	if r.owner[srv] != "" {
+		r.mu.Unlock()
+		return // a server belongs to at most one cluster at a time
+	}
+	r.owner[srv] = c
+	r.lists[c] = append(r.lists[c], srv)
+	r.dis[srv] = false
+	r.mu.Unlock()
+	if info := r.infos[c]; info != nil {
+		must(info.Sync(r.specFor(c)))
+		r.attachFake(info, srv)
+	}
+}
+
+func (r *c12Rig) removeEp(c, srv string) {
+	r.mu.Lock()
+	if r.owner[srv] != c {
+		r.mu.Unlock()
+		return
+	}
+	r.owner[srv] = ""
+	kept := []string{}
+	for _, x := range r.lists[c] {
+		if x != srv {
+			kept = append(kept, x)
+		}
+	}
+	r.lists[c] = kept
+	r.mu.Unlock()
+	if info := r.infos[c]; info != nil {
+		must(info.Sync(r.specFor(c)))
+	}
+}
+
 func (r *c12Rig) clusterNames() []string {
 	set := map[string]bool{}
-	for c := range r.cfg.Neps {
-		set[c] = true
+	for _, cs := range r.cfg.Servers {
+		set[cs.C] = true
 	}
 	for _, kv := range r.cfg.Reg {
 		set[kv[1]] = true
@@ -384,8 +453,18 @@ func newC12Rig(c *c12Case) *c12Rig {
 		tscript: c.TScript, sscript: c.SScript, tidx: map[string]int{}, sidx: map[string]int{}}
 	tokencache.VerifNow = r.clock
 	utilcache.VerifNow = r.clock
+	r.owner, r.lists, r.dis = map[string]string{}, map[string][]string{}, map[string]bool{}
+	for _, cs := range c.Cfg.Servers {
+		for _, srv := range cs.S {
+			if r.owner[srv] != "" {
+				panic("invalid case: server " + srv + " listed twice")
+			}
+			r.owner[srv] = cs.C
+			r.lists[cs.C] = append(r.lists[cs.C], srv)
+		}
+	}
 	for _, name := range r.clusterNames() {
-		r.infos[name] = r.newCluster(name, c.Cfg.Neps[name])
+		r.infos[name] = r.newCluster(name)
 	}
 	for _, kv := range c.Cfg.Reg {
 		r.mgr.AddWithKey(kv[0], r.infos[kv[1]])
@@ -522,7 +601,7 @@ func (r *c12Rig) restart(c string) string {
 		}
 		time.Sleep(time.Millisecond)
 	}
-	r.infos[c] = r.newCluster(c, r.cfg.Neps[c])
+	r.infos[c] = r.newCluster(c)
 	for _, k := range keys {
 		r.mgr.AddWithKey(k, r.infos[c])
 	}
@@ -573,12 +652,12 @@ func (r *c12Rig) impersonate(req *http.Request, a *c12Attrs) (authorizer.Decisio
 	return rec.dec, rec.reason, rec.err, note
 }
 
-func (r *c12Rig) endpoint(c string, i int) *clusters.EndpointInfo {
-	info := r.infos[c]
-	if info == nil {
+func (r *c12Rig) endpoint(srv string) *clusters.EndpointInfo {
+	info := r.infos[r.owner[srv]]
+	if r.owner[srv] == "" || info == nil {
 		return nil
 	}
-	ep, ok := info.Endpoints.Load(fmt.Sprintf("https://ep%d.%s.invalid:6443", i, c))
+	ep, ok := info.Endpoints.Load(c12URL(srv))
 	if !ok {
 		return nil
 	}
@@ -765,13 +844,18 @@ func runC12(raw json.RawMessage) interface{} {
 		case "overlapt", "overlaps":
 			st = r.overlap(op)
 		case "healthy":
-			if ep := r.endpoint(op.C, op.I); ep != nil {
+			if ep := r.endpoint(op.Srv); ep != nil {
 				ep.UpdateStatus(op.B, "verif", "verif")
 			}
 		case "disabled":
-			if ep := r.endpoint(op.C, op.I); ep != nil {
+			if ep := r.endpoint(op.Srv); ep != nil {
 				ep.SetDisabled(op.B)
+				r.dis[op.Srv] = op.B
 			}
+		case "addep":
+			r.addEp(op.C, op.Srv)
+		case "removeep":
+			r.removeEp(op.C, op.Srv)
 		case "restart":
 			st.Note = r.restart(op.C)
 		case "evictt":
